@@ -528,6 +528,22 @@ def C18_live : Prop :=
     ∀ (x : Side) (k : Nat), k < ((runLink (freshLink ra rb ga gb) ops).get x).submitted.length →
       ∃ n, k < ((runLink (freshLink ra rb ga gb) (ops ++ (List.range n).map f)).get x.other).fetched.length
 
+/-- **`C18_live_partial`** — what is proved of `C18_live`: in every state reachable from two fresh
+ends by any schedule, (1) every scheduler operation succeeds (except `send` of an empty / over-long
+message), so a fair continuation is never cut short by an error; (2) whenever a message is waiting
+to be sent, a `deliver`, a `fetch` or — at the latest `n` seconds later — a `poll` does something;
+(3) what has been fetched so far is a prefix of what was submitted. Missing for `C18_live`: a
+well-founded measure showing that these moves eventually carry the message across. -/
+theorem C18_live_partial (ra rb : Bool) (ga gb : Option Nat) (ops : List Op) (hw : WfSched ops) :
+    let l := runLink (freshLink ra rb ga gb) ops
+    (∀ op, (∃ l' o, l.step op = .ok (l', o)) ∨ (l.step op = .error .invalidArgument ∧ ∃ x m, op = .send x m)) ∧
+    (∀ x, (l.get x).e.sdu ≠ [] →
+      (∃ y, l.inq y ≠ []) ∨ (∃ y, 0 < (l.get y).e.s.recv.msgCt) ∨
+      (∃ y n e' seg, (l.get y).e.processOutgoing (l.now + n) = .ok (e', seg) ∧ seg ≠ [])) ∧
+    (∀ (y : Side) (k : Nat) (b : List Nat) (c : Nat), (l.get y).fetched[k]? = some (b, c) →
+      ∃ full : List Nat, (l.get y.other).submitted[k]? = some full ∧ b = full.take c) :=
+  ⟨never_refused ra rb ga gb ops hw, never_stuck ra rb ga gb ops hw, in_order_once_fresh ra rb ga gb ops hw⟩
+
 /-! ## The ring buffer: the real index arithmetic refines the byte queue of the session model -/
 
 /-- **`RingBuf<N>` (model of the real `start` / `end` / `non_empty` arithmetic of
